@@ -360,6 +360,58 @@ mod imp {
             }
         }
 
+        // ---- R: the three paths under garbage-collection schedules, with heap slots of one-character strings recycled by
+        //      OTHER characters of the same UTF-8 length between two observations of the same string
+        if !flag("--no-recycle") {
+            let alphabets: [(&str, Vec<u32>, Vec<u32>); 5] = [
+                ("ascii", (0x61..0x7Bu32).collect(), (0x41..0x5Bu32).collect()),
+                ("greek/cyrillic", (0x3B1..0x3C9u32).filter(|c| *c != 0x3C2).collect(), (0x400..0x460u32).collect()),
+                ("latin-1/greek", (0xC0..0x100u32).filter(|c| *c != 0xD7 && *c != 0xF7).collect(), (0x391..0x3A1u32).chain(0x3B1..0x3C1u32).collect()),
+                ("kana/cjk", (0x3041..0x3090u32).collect(), (0x4E00..0x4E60u32).collect()),
+                ("emoji", (0x1F600..0x1F640u32).collect(), (0x1F400..0x1F440u32).collect()),
+            ];
+            let n_rec = arg_u64("--recycle", 12) as usize;
+            let schedules: Vec<(u8, u64)> = vec![(0, 0), (2, 0), (3, 2), (3, 5)];
+            let ropts: Vec<u32> = arg("--recycle-opts").unwrap_or("0,2".into()).split(',').filter_map(|s| s.parse().ok()).collect();
+            for rc in 0..n_rec {
+                let (aname, a, b) = &alphabets[rc % alphabets.len()];
+                let len = rng.range_i64(3, 10) as usize;
+                // a few distinct characters, repeated: a character is produced again after others took its slot
+                let pool: Vec<u32> = (0..rng.range_i64(2, 5)).map(|_| *rng.pick(&a[..])).collect();
+                let cs: Vec<u32> = (0..len).map(|_| if rng.chance(2, 3) { *rng.pick(&pool[..]) } else { *rng.pick(&a[..]) }).collect();
+                let other: Vec<u32> = (0..rng.range_i64(20, 60)).map(|_| *rng.pick(&b[..])).collect();
+                let (s1, s2) = ('#', '|');
+                let form = *rng.pick(&["lit", "cat_var", "method_concat", "param_typed"]);
+                let cons = construct(&cs, form, &mut rng);
+                let round = format!("print(sv.char_len()); print(\"{s2}\")\nfor it in sv {{ print(it); print(\"{s1}\") }}\nprint(\"{s2}\")\nfor jx in 0..sv.char_len() {{ print(sv[jx]); print(\"{s1}\") }}\nprint(\"{s2}\")\n");
+                let churn = format!("let oth = \"{}\"\nlet mut seen = 0\nfor oc in oth {{ seen++ }}\nfor ox in 0..oth.char_len() {{ let och = oth[ox]\n seen++ }}\nlet mut junk = \"\"\nfor oj in 0..40 {{ junk = junk + \"xy\" }}\n",
+                                    lit(&other, &mut rng));
+                let body = format!("{round}{churn}{round}{churn}{round}");
+                let src = wrap(&cons, &body, form, rng.chance(1, 3));
+                println!("I\t{}\t{}\t{}", rc, aname, esc(&src));
+                for &o in &ropts { for &g in &schedules {
+                    let r = run_program(&src, o, g, budget * 4, None);
+                    let obs: Vec<i128> = if r.class != "ok" { vec![-9, class_code(&r.class)] } else {
+                        let secs: Vec<&str> = r.output.split(s2).collect();
+                        if secs.len() != 10 || !secs[9].is_empty() { vec![-8, secs.len() as i128] } else {
+                            let mut v = Vec::new();
+                            for rd in 0..3 {
+                                v.push(secs[rd * 3].parse::<i128>().unwrap_or(-77));
+                                for k in 1..3 {
+                                    let part = secs[rd * 3 + k];
+                                    let fields: Vec<&str> = if part.is_empty() { vec![] } else { part.strip_suffix(s1).unwrap_or(part).split(s1).collect() };
+                                    v.push(fields.len() as i128);
+                                    for f in fields { v.extend(bytes_of(f)); }
+                                }
+                            }
+                            v
+                        }
+                    };
+                    println!("R\t{}:{}:{}:O{}:gc{}.{}\tQRecycle {}\t{}", rc, aname, form, o, g.0, g.1, coq_list(&cs), join(&obs));
+                }}
+            }
+        }
+
         // ---- P: programs
         if flag("--no-prog") { return; }
         let strs = gen_strings(&mut rng, n_random);
